@@ -62,3 +62,12 @@ Theorem c10_deliver_nonempty : forall c s u un,
   reach c s -> nth_error (units s) u = Some un -> u_st un = UAtDeliver -> responses (unit_tasks s u) <> [].
 Proof. exact deliver_nonempty. Qed.
 Print Assumptions c10_deliver_nonempty.
+
+(* B3, requests: a pushed request carries the method of a push call of the environment, hence
+   a non-empty one whenever the environment's calls do *)
+Theorem c10_sendreq_method_nonempty : forall c tr s oss,
+  run (init_of c) tr = Some (s, oss) ->
+  (forall n w m p, In (LCallPush n w m p) tr -> m <> []) ->
+  forall ok id m p, In (OSendReq ok id m p) (concat oss) -> m <> [].
+Proof. exact sendreq_method_nonempty. Qed.
+Print Assumptions c10_sendreq_method_nonempty.
